@@ -133,7 +133,7 @@ fn compute_paths_of_destructure(
             let mut output_form = bodyform.clone();
 
             while produce_path > bi_one() {
-                if path.clone() & produce_path.clone() != bi_zero() {
+                if produce_path.clone() & bi_one() != bi_zero() {
                     // Right path
                     output_form = Rc::new(make_operator1(
                         &bodyform.loc(),
